@@ -303,6 +303,11 @@ def window(x, p):
         if k == 'name':
             text = w._name_factory.get_short_name(t._data)
             exp.append(('name', text, None))
+        elif k == 'label':
+            # labels are renamed through the same map as names (C02)
+            nm = t._data[2:len(t._data) - 2]
+            exp.append(('label', b'::' + w._name_factory.get_short_name(nm) +
+                        b'::', None))
         elif k == 'string':
             exp.append(('string', None, t._data))
         else:
